@@ -487,7 +487,7 @@ PROPS = {
     },
     "C05": {
         "level": "other",
-        "units": ["rtypebitmap", "tsig"],
+        "units": ["rtypebitmap", "tsig", "rdcompose"],
         "kani": [
             {"group": "g0", "name": "c05_a_roundtrip", "kind": "complete", "tier": "quick",
              "what": "A: every address: rdlen == 4 == octets written; parse(compose(x)) == x consuming all; canonical form identical"},
@@ -513,7 +513,10 @@ PROPS = {
         "explanation": "Unit tsig (rdata/tsig.rs, base/rdata.rs): Tsig::new accepts exactly the data whose wire length (algorithm "
                        "name + 16 + MAC + other) fits the 16-bit RDLENGTH, LongRecordData::{check_len, check_append_len} are the "
                        "65535 limit, and Tsig::rdlen on an accepted value equals that wire length with no failing expect() or "
-                       "overflow. Otherwise: bounded/complete contract checking with Kani of the compose/parse/rdlen quadruple on the compiled, "
+                       "overflow. Unit rdcompose (rdata/dnssec.rs): Dnskey::new and Ds::new accept exactly the data that fits RDLENGTH; "
+                       "on accepted values rdlen() == number of octets compose_rdata() appends, the octets are the fields in wire "
+                       "order, and compose_canonical_rdata() appends the same octets (these are the wire forms the C04 unit "
+                       "nsec3order orders by). Otherwise: bounded/complete contract checking with Kani of the compose/parse/rdlen quadruple on the compiled, "
                        "macro-generated generic code, for the record types CBMC can handle: A and AAAA complete over all values; DS, "
                        "DNSKEY, TLSA, SSHFP, HINFO with small symbolic octet fields; MX and SRV with one fixed name (canonical "
                        "lower-casing). Verus unit rtypebitmap (rdata/dnssec.rs, real text): the type bitmap shared by NSEC, NSEC3 "
@@ -527,6 +530,7 @@ PROPS = {
             "Rtype (int_enum! macro) is modelled as a 16-bit code with from_int/to_int",
             "octets values are at most a quarter of the address space long (makes the checked_add(..).expect() of Tsig::new dead code)",
             "ToName::compose_len is between 1 and 255 (C03)",
+            "Compose for u8/u16/int_enum! types appends the big-endian octets (to_be_bytes has no Verus specification); Composer::append_slice appends exactly the slice or fails leaving the target alone",
         ],
         "not_covered": "The macro-generated enums ZoneRecordData/AllRecordData (rdata/macros.rs: one match arm per method and variant; "
                        "extraction works on syn items, not macro bodies, and CBMC does not finish on the enum even for one variant: "
